@@ -20,7 +20,13 @@ func Harness_C05_decode() {
 	rd := &verifReader{Data: data, Cuts: verif_Bound("cuts")}
 	sp := NewStreamProcessor(rd, nil, context.Background())
 	for i := 0; i <= n; i++ {
+		before := c05TotalAlloc()
 		pkt, cnt, err := sp.ReadPacket()
+		if !verif_Symbolic() {
+			// native counterpart of the engine's per-allocation obligation: bytes allocated while
+			// decoding one packet from at most a dozen input bytes
+			verif_Assert("alloc.limit", c05TotalAlloc()-before <= uint64(2*(constants.MaxPacketBodySize+64*1024)))
+		}
 		if err != nil {
 			verif_Cover("C05.dec.error")
 			break
